@@ -94,6 +94,8 @@ class InterpBase:
         self.outer_catch = ()
         self.outer_ctrl = frozenset()
         self.notes = []
+        self.partials = {}
+        self.ntfields = {}
 
     # ------------------------------------------------------------------ decisions
     def decide(self, atom, domain=(True, False)):
